@@ -1,10 +1,18 @@
 //! C20 -- scalar functions and arithmetic match their definitions.
-//! Drives the REAL implementation: `SELECT <expr>` on a `turdb::Database` and the public
-//! `turdb::sql::functions::eval_function(name, args)`, on generated arguments, and writes what it
-//! observed as Coq terms (coq/Corr/C20.v judges them against Model/Arith.v ... and the property's oracle).
+//! Drives the REAL implementation on generated arguments and writes what it observed as Coq terms
+//! (coq/Corr/C20.v judges them against Model/Arith.v, StrFun.v, DateFun.v, Cast.v and the property's oracle):
+//!   * integer expressions through `SELECT <expr>` and `SELECT <expr> FROM one` on a turdb::Database
+//!     (scratch database under /dev/shm, recreated after every panic, removed at the end);
+//!   * numeric / control-flow / string / date functions through the public
+//!     `turdb::sql::functions::eval_function(name, args)` AND through `SELECT f(args)`;
+//!   * CAST through SQL only; float functions through direct calls, judged by libm-independent identities.
+//! Arguments that make the implementation allocate or loop without bound (RPAD with a negative length,
+//! REPEAT / SPACE / LPAD beyond a few hundred) are never run: they would kill or hang the process, not panic.
 //!   c20 gen    --seed S --tier T --out DIR [--lines FILE]
-//!   c20 search --seed S --budget N --out FILE       (oracle only: Rust port of the exact semantics)
+//!   c20 search --seed S --budget N --out FILE       (oracle only: Rust ports of the exact semantics; FAIL lines end in #class=k)
 //!   c20 sql FILE                                     (debug: run the statements of FILE, print results)
+//! Replay lines:  arith <s-expr> | num NAME <int|NULL>.. | str NAME <tHEX|iINT|n>.. | date NAME <dYYYY-MM-DD|iINT|n>..
+//!                | cast <INT|TEXT|BOOL|INT_OF_TEXT> <tHEX|iINT|n> | flt <id> <int>        (a trailing ` #...` is ignored)
 use std::borrow::Cow;
 use std::path::PathBuf;
 use tvh::*;
@@ -572,6 +580,70 @@ fn rand_date_args(rng: &mut Rng, name: &str) -> Vec<DA> {
     v
 }
 
+// ------------------------------------------------------------------ CAST (through SQL only: eval_cast is not public)
+const CASTS: [(&str, &str); 4] = [("INT", "KInt"), ("TEXT", "KText"), ("BOOL", "KBool"), ("INT_OF_TEXT", "KIntOfText")];
+fn cast_case(w: &mut CaseWriter, sut: &mut Sut, kind_name: &str, arg: &SA, kind: &str) {
+    let k = match CASTS.iter().find(|x| x.0 == kind_name) { Some(k) => k, None => return };
+    let a = match arg.sql() { Some(a) => a, None => return };
+    let sql = match kind_name {
+        "INT" => format!("SELECT CAST({} AS INTEGER)", a),
+        "TEXT" => format!("SELECT CAST({} AS TEXT)", a),
+        "BOOL" => format!("SELECT CAST({} AS BOOLEAN)", a),
+        _ => format!("SELECT CAST(CAST({} AS TEXT) AS INTEGER)", a),
+    };
+    let o = sut.select1(&sql);
+    w.count(&format!("cast:out:{}", o.bucket()), 1);
+    let nontrivial = !matches!(arg, SA::N);
+    w.push(format!("CCast {} {} {}", k.1, arg.coq(), o.coq()), format!("cast {} {}", kind_name, arg.tok()), nontrivial, kind);
+}
+fn rand_numeral(rng: &mut Rng) -> String {
+    let n = rand_int(rng);
+    match rng.below(10) {
+        0 => format!("+{}", n.unsigned_abs()),
+        1 => format!(" {}", n),
+        2 => format!("{} ", n),
+        3 => format!("00{}", n.unsigned_abs()),
+        4 => format!("{}x", n),
+        5 => format!("{}{}", n, rng.below(100)),                  // often beyond i64
+        6 => "-".to_string(),
+        7 => String::new(),
+        _ => n.to_string(),
+    }
+}
+fn cast_cases(w: &mut CaseWriter, sut: &mut Sut, rng: &mut Rng, thorough: bool) {
+    for x in BOUNDARY { for k in ["INT", "TEXT", "BOOL", "INT_OF_TEXT"] { cast_case(w, sut, k, &SA::I(x), "cast:boundary"); } cast_case(w, sut, "INT", &SA::T(x.to_string()), "cast:boundary"); }
+    for k in CASTS { cast_case(w, sut, k.0, &SA::N, "cast:null"); }
+    let n = if thorough { 3_000 } else { 300 };
+    for _ in 0..n {
+        match rng.below(4) {
+            0 => { let k = *rng.pick(&["INT", "TEXT", "BOOL", "INT_OF_TEXT"]); cast_case(w, sut, k, &SA::I(rand_int(rng)), "cast:random_int"); }
+            1 => cast_case(w, sut, "INT", &SA::T(rand_numeral(rng)), "cast:numeral_text"),
+            2 => cast_case(w, sut, "TEXT", &SA::T(rand_string(rng)), "cast:random_text"),
+            _ => cast_case(w, sut, *rng.pick(&["INT", "INT_OF_TEXT"]), &SA::T(if rng.chance(1, 2) { rand_numeral(rng) } else { rand_string(rng) }), "cast:random_text"),
+        }
+    }
+}
+
+// ------------------------------------------------------------------ float functions: identities that hold for any libm (sampled only)
+fn flt_case(w: &mut CaseWriter, id: u32, n: i64, kind: &str) {
+    let x = n as f64;
+    let f = |v: f64| Some(Value::Float(v));
+    let (name, args): (&str, Vec<Option<Value<'static>>>) = match id {
+        0 => ("POWER", vec![f(x), f(1.0)]), 1 => ("SQRT", vec![f(x * x)]), 2 => ("ABS", vec![f(x)]), 3 => ("CEIL", vec![f(x)]),
+        4 => ("FLOOR", vec![f(x)]), 5 => ("ROUND", vec![f(x)]), 6 => ("EXP", vec![f(0.0)]), 7 => ("LN", vec![f(1.0)]), 8 => ("SIN", vec![f(0.0)]),
+        9 => ("COS", vec![f(0.0)]), 10 => ("SQRT", vec![f(-x)]), 11 => ("LN", vec![f(-x)]), 12 => ("MOD", vec![f(x), f(0.0)]),
+        13 => ("POWER", vec![f(x), f(2.0)]), 14 => ("SIGN", vec![f(x)]), _ => return,
+    };
+    let d = call_direct(name, &args);
+    w.count(&format!("flt:out:{}", d.bucket()), 1);
+    w.push(format!("CFlt {} {} {}", id, zi(n as i128), d.coq()), format!("flt {} {}", id, n), true, kind);
+}
+fn flt_cases(w: &mut CaseWriter, rng: &mut Rng, thorough: bool) {
+    let n = if thorough { 4_000 } else { 300 };
+    for id in 0..15u32 { for x in [0i64, 1, -1, 2, 3, 1 << 26, -(1 << 26), 12345] { flt_case(w, id, x, "flt:boundary"); } }
+    for _ in 0..n { let id = rng.below(15) as u32; let x = match rng.below(3) { 0 => rng.range(-20, 20), 1 => rng.range(-67108864, 67108864), _ => rng.range(-100000, 100000) }; flt_case(w, id, x, "flt:random"); }
+}
+
 // ------------------------------------------------------------------ gen
 fn gen(a: &Args) {
     let mut rng = Rng::new(a.seed);
@@ -597,7 +669,7 @@ fn gen(a: &Args) {
         }
     }
     for (u, _, _, _) in UOPS { for x in BOUNDARY { arith_case(&mut w, &mut sut, &E::Un(u, Box::new(E::of_int(x))), "arith:unary"); } }
-    let n_tree = if thorough { 60_000 } else { 1_500 };
+    let n_tree = if thorough { 30_000 } else { 1_500 };
     for _ in 0..n_tree {
         let d = 1 + rng.below(3) as u32;
         let e = rand_expr(&mut rng, d);
@@ -606,12 +678,12 @@ fn gen(a: &Args) {
     // ---- numeric functions
     for f in NFNS {
         if f.2 == 1 { for x in BOUNDARY { num_case(&mut w, &mut sut, f.0, &[Some(x)], "num:boundary"); } num_case(&mut w, &mut sut, f.0, &[None], "num:null"); }
-        let n = if thorough { 3_000 } else { 120 };
+        let n = if thorough { 1_500 } else { 120 };
         for _ in 0..n { let args = rand_num_args(&mut rng, f.0); num_case(&mut w, &mut sut, f.0, &args, "num:random"); }
     }
     // ---- string functions: Unicode strings from all planes
     for f in SFNS {
-        let n = if thorough { 4_000 } else { 160 };
+        let n = if thorough { 2_000 } else { 160 };
         for _ in 0..n { let args = rand_str_args(&mut rng, f.0); str_case(&mut w, &mut sut, f.0, &args, "str:random"); }
     }
     for s0 in ["", "a", "héllo", "e\u{301}\u{301}", "日本語", "𝄞x", "a\u{10FFFF}b", "  x  ", "\u{3000}x\u{a0}", "it's", "ÀB", "ß"] {
@@ -624,13 +696,17 @@ fn gen(a: &Args) {
             for nm in ["LEFT", "RIGHT", "SUBSTR"] { str_case(&mut w, &mut sut, nm, &[SA::T(s0.to_string()), SA::I(k)], "str:fixed"); }
         }
     }
+    // ---- CAST
+    cast_cases(&mut w, &mut sut, &mut rng, thorough);
+    // ---- float functions (identities only)
+    flt_cases(&mut w, &mut rng, thorough);
     // ---- date functions
     for f in DFNS {
-        let n = if thorough { 6_000 } else { 250 };
+        let n = if thorough { 2_500 } else { 250 };
         for _ in 0..n { let args = rand_date_args(&mut rng, f.0); date_case(&mut w, &mut sut, f.0, &args, "date:random"); }
     }
-    // every month boundary of a block of years (every 7th year in the thorough tier), and both ends of the range
-    let years: Vec<i64> = if thorough { (1..=9999).step_by(7).chain([4, 100, 400, 1900, 2000, 2024, 9999]).collect() } else { vec![1, 4, 100, 1900, 2000, 2023, 2024, 9999] };
+    // every month boundary of a block of years (every 23rd year in the thorough tier), and both ends of the range
+    let years: Vec<i64> = if thorough { (1..=9999).step_by(23).chain([4, 100, 400, 1900, 2000, 2024, 9999]).collect() } else { vec![1, 4, 100, 1900, 2000, 2023, 2024, 9999] };
     for y in years {
         for m in 1..=12 {
             let last = dim(y, m);
@@ -662,6 +738,13 @@ fn replay_line(w: &mut CaseWriter, sut: &mut Sut, l: &str) {
         let name = it.next().unwrap_or("").to_string();
         let args: Option<Vec<SA>> = it.map(SA::from_tok).collect();
         if let Some(args) = args { str_case(w, sut, &name, &args, "replay"); }
+    } else if let Some(r) = l.strip_prefix("cast ") {
+        let mut it = r.split_whitespace();
+        let k = it.next().unwrap_or("").to_string();
+        if let Some(arg) = it.next().and_then(SA::from_tok) { cast_case(w, sut, &k, &arg, "replay"); }
+    } else if let Some(r) = l.strip_prefix("flt ") {
+        let mut it = r.split_whitespace();
+        if let (Some(id), Some(n)) = (it.next().and_then(|t| t.parse::<u32>().ok()), it.next().and_then(|t| t.parse::<i64>().ok())) { flt_case(w, id, n, "replay"); }
     } else if let Some(r) = l.strip_prefix("date ") {
         let mut it = r.split_whitespace();
         let name = it.next().unwrap_or("").to_string();
@@ -863,6 +946,15 @@ fn search(a: &Args) {
                 let d = call_direct(f, &vals);
                 let (x, c) = num_exact(f, &args);
                 if !exp_ok(&x, &d) { note(&mut fails, format!("num {} {}", f, args.iter().map(|a| match a { None => "NULL".to_string(), Some(v) => v.to_string() }).collect::<Vec<_>>().join(" ")), c); }
+            }
+            6 if rng.chance(1, 3) => {
+                let n = rand_int(&mut rng);
+                let k = *rng.pick(&["INT", "TEXT", "INT_OF_TEXT"]);
+                let a = E::of_int(n).sql();
+                let sql = match k { "INT" => format!("SELECT CAST({} AS INTEGER)", a), "TEXT" => format!("SELECT CAST({} AS TEXT)", a), _ => format!("SELECT CAST(CAST({} AS TEXT) AS INTEGER)", a) };
+                let o = sut.select1(&sql);
+                let x = if k == "TEXT" { Exp::Text(n.to_string()) } else { Exp::Int(n as i128) };
+                if !exp_ok(&x, &o) { note(&mut fails, format!("cast {} i{}", k, n), 0); }
             }
             6 | 7 | 8 => {
                 let f = rng.pick(&SFNS).0;
